@@ -26,6 +26,27 @@ from rules import core, registry  # noqa: E402
 sys.setrecursionlimit(20000)
 
 
+ALWAYS = ("ANCHOR", "FLOOR", "ENGINE", "BUILD", "SHAPE")
+
+
+def pack(R, spec, wall):
+    """Keep only the rule ids that belong to this property (a rule function may judge
+    instances of several properties' rules in one pass)."""
+    own = set(spec["rules"])
+    def mine(rule):
+        return rule in own or rule in ALWAYS
+    return {
+        "counts": {k: v for k, v in R.counts.items() if mine(k)},
+        "violations": [{"rule": v.rule, "key": v.key, "detail": v.detail, "where": v.where, "config": v.config} for v in R.violations
+                       if mine(v.rule) and not (v.rule == "FLOOR" and v.key not in own)],
+        "samples": [s for s in R.samples.values() if mine(s["rule"])],
+        "notes": R.notes,
+        "nontrivial": len([1 for (r, k) in R.nontrivial if mine(r)]),
+        "functions": len(R.functions),
+        "wall": round(wall, 2),
+    }
+
+
 def analyse_config(args):
     cfg_features, cfg_debug, repo, props = args
     cfg = extract.Config(cfg_features, cfg_debug)
@@ -56,15 +77,7 @@ def analyse_config(args):
             fl = floor(ctx) if callable(floor) else floor
             if fl is not None:
                 R.floor(rule, fl)
-        out["props"][pid] = {
-            "counts": R.counts,
-            "violations": [{"rule": v.rule, "key": v.key, "detail": v.detail, "where": v.where, "config": v.config} for v in R.violations],
-            "samples": list(R.samples.values()),
-            "notes": R.notes,
-            "nontrivial": len(R.nontrivial),
-            "functions": len(R.functions),
-            "wall": round(time.time() - t1, 2),
-        }
+        out["props"][pid] = pack(R, spec, time.time() - t1)
     out["wall"] = round(time.time() - t0, 1)
     return out
 
@@ -83,14 +96,7 @@ def run_static(repo, tier, props):
                 R.violations.append(core.Violation("ENGINE", fn.__name__, "rule crashed (fail closed):\n" + traceback.format_exc()[-1500:], None, "static"))
         for rule, floor in spec.get("static_floors", {}).items():
             R.floor(rule, floor)
-        out[pid] = {
-            "counts": R.counts,
-            "violations": [{"rule": v.rule, "key": v.key, "detail": v.detail, "where": v.where, "config": v.config} for v in R.violations],
-            "samples": list(R.samples.values()),
-            "notes": R.notes,
-            "nontrivial": len(R.nontrivial),
-            "functions": len(R.functions),
-        }
+        out[pid] = pack(R, spec, 0)
     return out
 
 
@@ -101,6 +107,7 @@ def results_key(repo, tier):
     h.update(core.tree_hash([os.path.join(HERE, "rules"), os.path.join(HERE, "check.py"), os.path.join(HERE, "extract.py"),
                              os.path.join(VERIF, "witness"), os.path.join(HERE, "tmpl/src"), os.path.join(VERIF, "tables")]).encode())
     h.update(tier.encode())
+    h.update(os.environ.get("VERIF_ONLY_CONFIGS", "").encode())
     h.update(os.path.abspath(repo).encode())
     return h.hexdigest()[:24]
 
@@ -116,6 +123,18 @@ def compute(repo, tier):
         async_res = pool.map_async(analyse_config, jobs)
         static_res = run_static(repo, tier, props)
         per_cfg = async_res.get()
+    # facts of scratch trees are not kept; facts of older /repo trees are pruned
+    import shutil
+    froot = os.path.join(VERIF, ".cache", "facts")
+    rk = extract.repo_key(repo)
+    if os.path.isdir(froot):
+        for d in os.listdir(froot):
+            p = os.path.join(froot, d)
+            if os.path.abspath(repo) != "/repo":
+                if d.startswith(rk):
+                    shutil.rmtree(p, ignore_errors=True)
+            elif not d.startswith(rk) and time.time() - os.path.getmtime(p) > 1800:
+                shutil.rmtree(p, ignore_errors=True)
     return {"tier": tier, "repo": repo, "configs": per_cfg, "static": static_res, "wall": round(time.time() - t0, 1), "at": time.time()}
 
 
